@@ -2,6 +2,7 @@
 code lives under $DZNPY_REPO/src) is answered with the value 'HOSTILE_<name>', whether the variable is set or not; lookups made
 by the interpreter, the standard library or the harness see the real environment.  One of the processes C08 compares runs like
 this, so output that depends on any environment variable - whatever its name - differs from the other processes' output.
+The same process answers the library's reads of the clock with a fixed date in 2001 (install_clock).
 Must be imported before dznpy."""
 import os
 import sys
@@ -42,5 +43,92 @@ def _has(orig, k):
         return False
 
 
+def install_clock():
+    """the library's own reads of the clock (time.time/gmtime/localtime/strftime/ctime, datetime.now/utcnow/today, date.today made
+    from a library frame) are answered with 3 February 2001; everybody else sees the real clock"""
+    import time
+    import datetime
+    fixed = 981173106.0       # 2001-02-03 04:05:06 UTC
+
+    def wrap0(orig, fake):
+        def f(*a, **kw):
+            if not a and not kw and _from_library():
+                READS.append('clock:' + orig.__name__)
+                return fake()
+            return orig(*a, **kw)
+        f.__name__ = orig.__name__
+        return f
+    o_time, o_gmtime, o_localtime, o_strftime, o_ctime = time.time, time.gmtime, time.localtime, time.strftime, time.ctime
+    time.time = wrap0(o_time, lambda: fixed)
+    time.time_ns = wrap0(time.time_ns, lambda: int(fixed * 1e9))
+    time.gmtime = wrap0(o_gmtime, lambda: o_gmtime(fixed))
+    time.localtime = wrap0(o_localtime, lambda: o_localtime(fixed))
+    time.ctime = wrap0(o_ctime, lambda: o_ctime(fixed))
+
+    def strftime(fmt, *a):
+        if not a and _from_library():
+            READS.append('clock:strftime')
+            return o_strftime(fmt, o_localtime(fixed))
+        return o_strftime(fmt, *a)
+    time.strftime = strftime
+
+    class FakeDate(datetime.date):
+        @classmethod
+        def today(cls):
+            if _from_library():
+                READS.append('clock:date.today')
+                return cls(2001, 2, 3)
+            return super().today()
+
+    class FakeDateTime(datetime.datetime):
+        @classmethod
+        def now(cls, tz=None):
+            if _from_library():
+                READS.append('clock:datetime.now')
+                return cls(2001, 2, 3, 4, 5, 6, tzinfo=tz)
+            return super().now(tz)
+
+        @classmethod
+        def utcnow(cls):
+            if _from_library():
+                READS.append('clock:datetime.utcnow')
+                return cls(2001, 2, 3, 4, 5, 6)
+            return super().utcnow()
+
+        @classmethod
+        def today(cls):
+            return cls.now()
+    datetime.date = FakeDate
+    datetime.datetime = FakeDateTime
+
+
+def install_host():
+    """host, user and platform descriptions read by the library are answered with made-up values as well"""
+    import socket
+    import platform
+    import getpass
+
+    def wrap(mod, name, fake):
+        orig = getattr(mod, name)
+
+        def f(*a, **kw):
+            if _from_library():
+                READS.append('host:' + name)
+                return fake
+            return orig(*a, **kw)
+        f.__name__ = name
+        setattr(mod, name, f)
+    wrap(socket, 'gethostname', 'hostile-host')
+    wrap(socket, 'getfqdn', 'hostile-host.example')
+    wrap(getpass, 'getuser', 'hostile-user')
+    for name, fake in (('node', 'hostile-host'), ('platform', 'Hostile-OS-0.0'), ('system', 'HostileOS'), ('release', '0.0'), ('machine', 'h64'),
+                       ('python_version', '0.0.0'), ('python_implementation', 'HostilePython')):
+        wrap(platform, name, fake)
+    wrap(os, 'getlogin', 'hostile-user')
+    wrap(os, 'cpu_count', 1)
+
+
 if os.environ.get('VERIF_HOSTILE_ENV') == '1':
     install()
+    install_clock()
+    install_host()
